@@ -434,7 +434,15 @@ func CheckC02(p *Pkg, e *Env, r *res.Result) {
 		in.Respond = func(c *Call) reflect.Value { return v }
 		req := httptest.NewRequest(tg.op.Method, "http://h.example"+p.BasePath+concretePath(tg.op.Template), nil)
 		in.Reset()
+		// a middleware in front of the API may have announced a default Content-Type: a
+		// response with documented content is still written with its documented type
+		in.PresetHeader = nil
+		if tg.info.Doc.MediaType != "" && rapid.IntRange(0, 3).Draw(t, "preset_content_type") == 0 {
+			in.PresetHeader = http.Header{"Content-Type": {rapid.SampledFrom([]string{"application/json; charset=utf-8", "text/html", "application/x-preset"}).Draw(t, "preset_ct")}}
+			r.Label("writer:preset-content-type")
+		}
 		rec, pan := in.Serve(req)
+		in.PresetHeader = nil
 		r.Evaluations++
 		fail := func(clause, msg string) {
 			if strings.Contains(clause, "body") && tg.info.Doc.Schema != nil {
